@@ -302,6 +302,12 @@ def run(tier):
         if diffs:
             if diffs[0][0] == "two-resources-one-path":
                 continue
+            refnames = [st["s"] for stmts in p["mods"].values() for st in stmts if st["k"] == "decl" and st["s"].startswith("@")]
+            if len(refnames) != len(set(refnames)) and all(k.startswith("component") for k, _ in diffs):
+                # two modules declare the same @name: the document has one component of that name
+                chk.violation("C08|evaluation|same-reference-name-in-two-modules", "two modules declare the same reference name; the component of that name holds the value of one of them, "
+                              "whichever module the use is bound to (%s): %r" % (diffs[0][1][:160], rp_["files"][BASE + "m1.oal"][:160]), {"prog_text": rp_["files"], "differences": diffs[:4]})
+                continue
             chk.violation("C08|evaluation|scopes|%s" % diffs[0][0], "the evaluated document is not the one the lexical binding gives (%s): %r" % (
                 diffs[0][1][:200], rp_["files"][BASE + "m1.oal"][:200]), {"prog_text": rp_["files"], "differences": diffs[:4]})
         else:
